@@ -54,6 +54,18 @@ def gen_stretch(r, mag):
     return (Q * lam) @ Q.T
 
 
+def aligned_pair(r, mag):
+    """a stretch along the cell axes and an exact axis-permuting rotation (entries exactly 0 and +-1): grains sitting on
+    the laboratory axes give UBI matrices with exact zeros, which only sentinel tests on matrix elements would notice"""
+    S = np.diag(1 + r.uniform(-mag, mag, 3)) if mag else np.eye(3)
+    P = np.eye(3)[r.permutation(3)]
+    sg = r.choice([-1.0, 1.0], 3)
+    R = P * sg
+    if np.linalg.det(R) < 0:
+        R[:, 0] *= -1
+    return S, R
+
+
 def qr_orientation(UB):
     """Harness-side Busing-Levy U of a UB matrix: UB = U.B with B upper triangular and a positive diagonal is exactly
     the QR factorisation with the sign convention fixed (independent of ImageD11's cell-parameter route)."""
@@ -197,8 +209,17 @@ def one_map(run, seed, idx, mods, tmap):
     ubisA = np.empty((n, 3, 3))
     closed_s, closed_c = np.empty((n, 3, 3)), np.empty((n, 3, 3))
     for i in range(n):
-        S, Rr = gen_stretch(r, mag), xtal.random_rotation(r)
-        ubisA[i] = np.linalg.inv(unitcell.unitcell(vcells[i]).B) @ S @ Rr.T
+        S, Rr = (gen_stretch(r, mag), xtal.random_rotation(r)) if r.random() > 0.2 else aligned_pair(r, mag)
+        run.count("map_voxels_generated")
+        if Rr[0, 0] == 0 or Rr[0, 0] == 1 or Rr[0, 0] == -1:
+            run.count("map_voxels_axis_aligned")
+        if (Rr == np.round(Rr)).all():
+            # exact zeros in the UBI: an orthogonal reference cell, rows = (stretched) cell axes laid along the lab axes
+            vcells[i] = xtal.random_cell(r, ["cubic", "tetragonal", "orthorhombic"][int(r.integers(3))])
+            ubisA[i] = (np.diag(np.array(vcells[i][:3]) * np.diag(S)) @ Rr.T) + 0.0
+            run.count("map_voxels_with_exact_zero_ubi_element", int((ubisA[i] == 0).any()))
+        else:
+            ubisA[i] = np.linalg.inv(unitcell.unitcell(vcells[i]).B) @ S @ Rr.T
         closed_c[i] = S - np.eye(3)                 # Biot strain (m = 0.5) of the known stretch
         closed_s[i] = Rr @ closed_c[i] @ Rr.T
     ubimapA = ubisA.reshape(shp + (3, 3)).copy()
@@ -215,6 +236,12 @@ def one_map(run, seed, idx, mods, tmap):
         wants[i] = g.eps_sample_matrix(vcells[i], 0.5)
         wantc[i] = g.eps_grain_matrix(vcells[i], 0.5)
     for nm, got, want, closed in (("eps_sample", es, wants, closed_s), ("eps_crystal", ec, wantc, closed_c)):
+        if not np.isfinite(got[ok]).all():
+            # comparisons with NaN are all False: a voxel that holds a grain must come back with numbers
+            V("map:%s:nan-for-a-grain" % nm, "ubi_and_unitcell_to_%s returns NaN for %d voxels that hold a grain (first UBI %r)"
+              % (nm, int((~np.isfinite(got[ok]).all(axis=(1, 2))).sum()),
+                 ubisA[ok][~np.isfinite(got[ok]).all(axis=(1, 2))][0].tolist()))
+            continue
         if np.abs(got[ok] - want[ok]).max(initial=0) > 1e-10 or not np.isnan(got[mask]).all():
             V("map:%s" % nm, "ubi_and_unitcell_to_%s differs from the per-grain matrix (m=0.5) by %.3g"
               % (nm, np.abs(got[ok] - want[ok]).max(initial=0)))
@@ -242,7 +269,10 @@ def one_map(run, seed, idx, mods, tmap):
     Ecl_c, Ecl_s = np.empty((n, 3, 3)), np.empty((n, 3, 3))
     bound = np.empty(n)
     for i in range(n):
-        S, Rr = gen_stretch(r, mag), xtal.random_rotation(r)
+        S, Rr = (gen_stretch(r, mag), xtal.random_rotation(r)) if r.random() > 0.2 else aligned_pair(r, mag)
+        run.count("map_voxels_generated")
+        if Rr[0, 0] == 0 or Rr[0, 0] == 1 or Rr[0, 0] == -1:
+            run.count("map_voxels_axis_aligned")
         ubisB[i] = np.linalg.inv(ucs[phase[i]].B) @ S @ Rr.T
         Ecl_c[i] = S - np.eye(3)
         Ecl_s[i] = Rr @ Ecl_c[i] @ Rr.T
@@ -277,6 +307,10 @@ def one_map(run, seed, idx, mods, tmap):
             U = tm.U
         run.count("tensormap_orders")
         a, b, U = a.reshape(n, 3, 3), b.reshape(n, 3, 3), U.reshape(n, 3, 3)
+        if not (np.isfinite(a[okB]).all() and np.isfinite(b[okB]).all()):
+            V("TensorMap:%s:nan-for-a-grain" % order, "the strain maps hold NaN in %d voxels that have a grain and a phase"
+              % int((~(np.isfinite(a[okB]).all(axis=(1, 2)) & np.isfinite(b[okB]).all(axis=(1, 2)))).sum()))
+            continue
         first, second = (a, b) if order == "sample-first" else (b, a)
         wfirst = wantsB if order == "sample-first" else wantcB
         cfirst = Ecl_s if order == "sample-first" else Ecl_c
@@ -349,6 +383,7 @@ def check(run, replay=None):
     run.require_counter("dgt_object_inputs", 100)
     run.require_counter("e6_round_trips", 1000)
     run.require_counter("map_voxels_own_reference_cell", 50)
+    run.require_counter("map_voxels_with_exact_zero_ubi_element", 20)
     run.require_counter("tensormap_voxels_phase0", 10)
     run.require_counter("tensormap_voxels_phase1", 10)
     run.require_counter("tensormap_voxels_nophase", 3)
